@@ -33,6 +33,20 @@ CLAIMED = {
    'standard input are not judged.',
    'TLA+ reference semantics of the main loop evaluated by TLC; replay of exported programs with real files/operands; TLC '
    'validation of recorded random executions'),
+ 'C18': ('DESIGN.md section 3 / C18',
+   'spec/Cover.tla labels every statement of a program, defines the partition into blocks (maximal runs ending at a control-flow '
+   'statement, recursively) and takes each block\'s count from ghost counters of the reference semantics AwkSem, which records '
+   'how often every labelled statement began executing. TLC checks on the model that the blocks partition the statements and that '
+   'labelling is transparent, and exports 550-6,000 programs (calls, loops, sub/gsub/exit forms, loop nests with early exits, '
+   'patterns, empty bodies, else-if chains) with predicted output, exit status and profile. The harness runs each program through '
+   'the goawk CLI built from the tree under test, from 1-3 -f files (with and without final newline): no coverage / -covermode '
+   'count / -covermode set; outputs and statuses must agree with each other and with the reference semantics, and the profile must '
+   'report exactly the specified blocks, with the specified statement counts, the ghost counts (count mode) or their non-zeroness '
+   '(set mode), and positions inside the named file with start before end.',
+   'Trusted: TLC, AwkSem.tla + Cover.tla, the harness renderer (one statement per line, markers in comments). Exact columns and '
+   '-coverappend are not judged; HTML rendering is out of scope.',
+   'TLA+ reference semantics with ghost statement counters evaluated by TLC; replay of exported programs through the real CLI '
+   'with and without coverage; profile parsed and compared with the predicted block partition and counts'),
  'C06': ('DESIGN.md section 3 / C06',
    'TLC checks exhaustively (all operation histories up to depth 4-5 over a menu of ~60 operation instances) that the lazy '
    'record representation refines the abstract AWK record of spec/Record.tla; every history of <= 3 operations exported by '
